@@ -164,8 +164,48 @@ def handle : Handler := fun m j =>
         -- hypothesis of C10_pathmax_safe: both answers of realpath are link-free
         let lf := linkFreeAnswer fs (realpathP fs kfuel fuel cwdS (comps cwdS) (tensorPath base loc)) &&
           linkFreeAnswer fs (realpathP fs kfuel fuel cwdS (comps cwdS) base)
-        out := out.push ((callJ r.1 r.2).setObjVal! "lf" (toJson lf))
+        -- the general model over restricted system calls, instantiated with PATH_MAX only, is this model
+        let rv := readV (sysP fs kfuel (comps cwdS)) fs.data fuel cwdS base loc (← a[2]!.getNat?) (← a[3]!.getNat?)
+        out := out.push (((callJ r.1 r.2).setObjVal! "lf" (toJson lf)).setObjVal! "veq" (toJson (decide (rv = r))))
       return obj [("r", Json.arr out)]
+  | "path.readsA" => some do
+      -- an unprivileged process: PATH_MAX and search permissions; "nosearch": directories the uid may not search;
+      -- queries [base, loc, offset, length] (a fresh tofile read); "stats": strings to lstat / stat
+      let fs ← parseFS (← j.getObjVal? "fs")
+      let cwdS ← gs j "cwd"
+      let kfuel ← getNat j "kfuel"
+      let fuel ← getNat j "fuel"
+      let mut ns : Std.HashMap Loc Unit := {}
+      for p in (← getStrs j "nosearch") do
+        ns := ns.insert (comps p.toList) ()
+      let search : Loc → Bool := fun l => !(ns.contains l)
+      let sys := sysA fs search kfuel (comps cwdS)
+      let mut out : Array Json := #[]
+      for q in (← getArr j "queries") do
+        let a ← q.getArr?
+        if a.size != 4 then throw "query: expected 4 fields"
+        let base := (← a[0]!.getStr?).toList
+        let loc := (← a[1]!.getStr?).toList
+        let r := readV sys fs.data fuel cwdS base loc (← a[2]!.getNat?) (← a[3]!.getNat?)
+        out := out.push ((callJ r.1 r.2).setObjVal! "rp" (sJ (realpathV sys fuel cwdS (tensorPath base loc))))
+      let showN := fun (n : Option Node) =>
+        match n with
+        | some Node.dir => Json.str "d"
+        | some (Node.file i) => Json.str s!"f{i}"
+        | some (Node.link t) => Json.str ("l" ++ String.ofList t)
+        | some (Node.other i) => Json.str s!"o{i}"
+        | none => Json.str "none"
+      let showS := fun (x : Option StatId) =>
+        match x with
+        | some (StatId.dir _) => Json.str "d"
+        | some (StatId.ino i) => Json.str s!"f{i}"
+        | some (StatId.oth i) => Json.str s!"o{i}"
+        | none => Json.str "none"
+      let ps ← getStrs j "stats"
+      return obj [("r", Json.arr out), ("lstat", Json.arr (ps.map fun p => showN (sys.lstat p.toList)).toArray),
+                  ("stat", Json.arr (ps.map fun p => showS (sys.statId p.toList)).toArray),
+                  ("realpath", Json.arr (ps.map fun p => sJ (realpathV sys fuel cwdS p.toList)).toArray),
+                  ("nolink", Json.arr (ps.map fun p => toJson (noLinkOn sys.lstat p.toList)).toArray)]
   | "path.readsTB" => some do
       -- a bytes LOCATION: queries [kind, base, loc, offset, length, zero, ep]
       let fs ← parseFS (← j.getObjVal? "fs")
@@ -257,6 +297,14 @@ def handle : Handler := fun m j =>
           | some (Node.other i) => Json.str s!"o{i}"
           | none => Json.str "none"
       return obj [("r", Json.arr (ps.map show1).toArray)]
+  | "path.nolinks" => some do
+      -- the prefix walk of check 3 (D454) with PATH_MAX in os.lstat: true = every prefix examinable and no link
+      let fs ← parseFS (← j.getObjVal? "fs")
+      let cwdS ← gs j "cwd"
+      let kfuel ← getNat j "kfuel"
+      let ps ← getStrs j "paths"
+      return obj [("r", Json.arr (ps.map fun p =>
+        toJson (noLinkOn (lstatP fs kfuel (comps cwdS)) p.toList)).toArray)]
   | "path.walker" => some do
       let t ← j.getObjVal? "tree"
       let g ← parseGTree (← t.getObjVal? "main")
